@@ -13,6 +13,7 @@ CONSTANTS
   PertKinds <- K_Two
   NumSyss <- N_All
   RrefFlags <- FL_All
+  Options <- O_Some
   MaxEvals = 2
 INVARIANT TypeOK
 INVARIANT BackwardConstructionIsEquilibrium
